@@ -132,7 +132,7 @@ def seed_c12_stash_only_unselected():
 @mut
 def seed_r2b_size_check():
     # /tmp/seed-r2b/out/3: abstract_positive_literal only measures subgoals that have no table yet
-    subprocess.run(["git", "-C", WT, "apply", "--include=chalk-engine/src/logic.rs", "/tmp/seed-r2b/out/3/patch.diff"], check=True)
+    subprocess.run(["git", "-C", WT, "apply", "--include=chalk-engine/src/logic.rs", "/verif/seeded/C10-abstract-literal-skips-size-check-for-existing-table/patch.diff"], check=True)
 
 @mut
 def seed_r4a_table_registered_early():
